@@ -28,6 +28,8 @@ type VClock struct {
 	sleeps []time.Duration
 	// OnSleep, if set, is called for each Sleep request (before any advance).
 	OnSleep func(d time.Duration)
+	// OnNano, if set, is called with every value handed out by CurrentTimeNano.
+	OnNano func(ns int64)
 }
 
 var Clock = &VClock{}
@@ -45,6 +47,9 @@ func (c *VClock) CurrentTimeMillis() uint64 {
 func (c *VClock) CurrentTimeNano() uint64 {
 	v := atomic.LoadInt64(&c.ns)
 	vsched.Observe(uint64(v))
+	if c.OnNano != nil {
+		c.OnNano(v)
+	}
 	return uint64(v)
 }
 func (c *VClock) Sleep(d time.Duration) {
@@ -110,6 +115,7 @@ func ResetAll(g Geometry, startMs int64) {
 	Clock.SetMs(startMs)
 	Clock.SleepAdvances = false
 	Clock.OnSleep = nil
+	Clock.OnNano = nil
 	Clock.ResetSleeps()
 	_ = flow.ClearRules()
 	_ = isolation.ClearRules()
